@@ -56,7 +56,15 @@ Lemma with_binds_agree : forall l s r, with_binds ev s l = Ok r -> xwith_binds x
 Proof.
   induction l as [|[x e] l IH]; intros s r H; cbn [with_binds xwith_binds] in *.
   - inversion H; reflexivity.
-  - bs H p1 E1. destruct p1 as [v s1]. rewrite (Hev _ _ _ E1). cbn [bindE]. apply IH, H.
+  - bs H p1 E1. destruct p1 as [v s1]. bs H s2 E2. rewrite (Hev _ _ _ E1). cbn [bindE]. rewrite E2. cbn [lift bindE]. apply IH, H.
+Qed.
+
+Lemma map_eval_pairs_agree : forall l s r, map_eval_pairs ev s l = Ok r -> xmap_eval_pairs xev s l = OkE r.
+Proof.
+  induction l as [|[ke ve] l IH]; intros s r H; cbn [map_eval_pairs xmap_eval_pairs] in *.
+  - inversion H; reflexivity.
+  - bs H p1 E1. destruct p1 as [k s1]. bs H p2 E2. destruct p2 as [v s2]. bs H p3 E3. destruct p3 as [kvs s3]. inversion H; subst.
+    rewrite (Hev _ _ _ E1). cbn [bindE]. rewrite (Hev _ _ _ E2). cbn [bindE]. rewrite (IH _ _ E3). reflexivity.
 Qed.
 
 Lemma filter_items_agree m tg fe : forall l s r, filter_items m ev tg fe s l = Ok r -> xfilter_items m xev tg fe s l = OkE r.
@@ -107,6 +115,8 @@ Proof.
       * destruct (lookup c s x) as [v0 s1]. inversion H; reflexivity.
       * bs H p1 E1. destruct p1 as [vs s1]. inversion H; subst.
         rewrite (map_eval_agree _ _ (IHe esc) _ _ _ E1). reflexivity.
+      * bs H p1 E1. destruct p1 as [kvs s1]. inversion H; subst.
+        rewrite (map_eval_pairs_agree _ _ (IHe esc) _ _ _ E1). reflexivity.
       * bs H p1 E1. destruct p1 as [v0 s1]. rewrite (IHe _ _ _ _ E1). cbn [bindE]. destruct v0; inversion H; reflexivity.
       * bs H p1 E1. destruct p1 as [v0 s1]. bs H b E2. inversion H; subst. rewrite (IHe _ _ _ _ E1). cbn [bindE]. rewrite E2. reflexivity.
       * bs H p1 E1. destruct p1 as [x s1]. bs H p2 E2. destruct p2 as [y s2]. bs H u E3. bs H r0 E4. inversion H; subst.
@@ -120,10 +130,10 @@ Proof.
         destruct b; [apply IHe, H|]. destruct f; [apply IHe, H|inversion H; reflexivity].
       * bs H p1 E1. destruct p1 as [x s1]. bs H p2 E2. destruct p2 as [k s2].
         rewrite (IHe _ _ _ _ E1). cbn [bindE]. rewrite (IHe _ _ _ _ E2). cbn [bindE].
-        destruct (match x, k with VList l, VInt z => idx_list l z | _, _ => None end); [inversion H; reflexivity|].
+        destruct (get_item_opt x k); [inversion H; reflexivity|].
         bs H u E3. inversion H; subst. rewrite E3. reflexivity.
       * bs H p1 E1. destruct p1 as [x s1]. rewrite (IHe _ _ _ _ E1). cbn [bindE].
-        destruct (match x with VLoop i n => loop_attr i n a | _ => None end); [inversion H; reflexivity|].
+        destruct (get_attr_opt x a); [inversion H; reflexivity|].
         bs H u E3. inversion H; subst. rewrite E3. reflexivity.
       * bs H p1 E1. destruct p1 as [x s1]. bs H p2 E2. destruct p2 as [vs s2]. bs H r0 E3. inversion H; subst.
         rewrite (IHe _ _ _ _ E1). cbn [bindE]. rewrite (map_eval_agree _ _ (IHe esc) _ _ _ E2). cbn [bindE].
@@ -153,7 +163,7 @@ Proof.
         { destruct filter; [apply (filter_items_agree _ _ (IHe esc)), E3|inversion E3; reflexivity]. }
         rewrite F. cbn [bindE]. rewrite (loop_items_agree _ _ (IHl esc) _ _ _ _ _ _ _ E4). cbn [bindE].
         destruct items; [destruct els|]; try (inversion H; reflexivity). apply IHl, H.
-      * bs H p1 E1. destruct p1 as [v s1]. inversion H; subst. rewrite (IHe _ _ _ _ E1). reflexivity.
+      * bs H p1 E1. destruct p1 as [v s1]. bs H s2 E2. inversion H; subst. rewrite (IHe _ _ _ _ E1). cbn [bindE]. rewrite E2. reflexivity.
       * bs H p1 E1. destruct p1 as [[sg0 txt] s1]. bs E1 p2 E2. destruct p2 as [sg1 s1']. inversion E1; subst.
         rewrite (IHl _ _ _ _ E2). cbn [bindE]. destruct sg0; try (inversion H; reflexivity).
         bs H v E3. inversion H; subst.
